@@ -32,6 +32,7 @@ LEVEL_TEXT = ("Generated packages of 1-12 modules, each with 1-8 documented func
               "same outcome class on both sides and in the inventory, both must have executed the same doctests exactly once, "
               "and each must exit non-zero exactly when some doctest failed. Single-module runs give the exit-status "
               "comparison per module. Differential exploration; volume bounded by process start-up (about 1 s per pair).")
+LEVEL_ADDED = ('Two further jobs: text files (.txt / .rst of 2-7 google blocks that bind a name, read a name only other blocks bind, pass, fail or are skipped) through the pytest plugin - outcome per block, blocks that ran and exit status by construction; and nine docstrings of doubtful syntax (blocks without any prompt, statements that are not Python) x three styles between a passing and a failing neighbour through both front ends: neither may break down, both must still run the neighbours.')
 LEVEL_NOTE = ("Trusted: pytest 9 as the host of the plugin and its junit report; the generator inventory as tie-breaker. "
               "Modules without any collected doctest are excluded (pytest exits 5 for 'no tests collected', which is not "
               "xdoctest's decision); the '# pytest.skip' pattern is not generated.")
